@@ -55,6 +55,65 @@ func TestC20ProdGenesisAndClock(t *testing.T) {
 		}
 	}
 	ev.Eval(n)
+	// The end of a 5-minute slot is where a rounding slip in the clock reading
+	// shows (a value rounded to the nearest second moves into the next slot up
+	// to 500 ms early). The thorough tier waits for the next slot boundary (at
+	// most 300 s) and samples densely across it; the quick tier does so only if
+	// the boundary is less than 12 s away.
+	toBoundary := func() time.Duration {
+		now := time.Now()
+		sec := now.Unix() - wantGenesis
+		next := time.Unix(wantGenesis+(sec/300+1)*300, 0)
+		return next.Sub(now)
+	}
+	maxWait := 12 * time.Second
+	if os.Getenv("VERIF_TIER") == "thorough" {
+		maxWait = 301 * time.Second
+	}
+	if d := toBoundary(); d <= maxWait {
+		if d > 1500*time.Millisecond {
+			time.Sleep(d - 1500*time.Millisecond)
+		}
+		samples := 0
+		last := 0
+		for toBoundary() < 2*time.Second || samples == 0 {
+			b := time.Now().Unix()
+			got := glow.CurrentTimeslot()
+			a := time.Now().Unix()
+			lo, _ := refSlot(b, wantGenesis)
+			hi, _ := refSlot(a, wantGenesis)
+			if int64(got) < lo || int64(got) > hi {
+				t.Fatalf("C20: CurrentTimeslot()=%d but the system clock gives slot [%d,%d] (sample taken %v before the slot boundary)", got, lo, hi, toBoundary())
+			}
+			samples++
+			if hi > lo || (last != 0 && int(got) != last) {
+				// crossed the boundary: continue for another 300 ms
+				end := time.Now().Add(300 * time.Millisecond)
+				for time.Now().Before(end) {
+					b := time.Now().Unix()
+					got := glow.CurrentTimeslot()
+					a := time.Now().Unix()
+					lo, _ := refSlot(b, wantGenesis)
+					hi, _ := refSlot(a, wantGenesis)
+					if int64(got) < lo || int64(got) > hi {
+						t.Fatalf("C20: CurrentTimeslot()=%d right after a slot boundary, the system clock gives [%d,%d]", got, lo, hi)
+					}
+					samples++
+				}
+				break
+			}
+			last = int(got)
+			if toBoundary() > 290*time.Second {
+				break
+			}
+		}
+		ev.Eval(samples)
+		ev.NonTrivial("c20|prod|slot-boundary-sampled")
+		ev.Label("c20:slot-boundary-sampled")
+		ev.Set("c20_slot_boundary_samples", samples)
+	} else {
+		ev.Label("c20:slot-boundary-not-sampled-in-quick-tier")
+	}
 	ev.NonTrivial("c20|prod|genesis")
 	ev.NonTrivial("c20|prod|clock-bracket")
 	sc := server.VerifConsts()
